@@ -13,8 +13,9 @@ def jobs(tier, prop):
                            ('literals_gen.cpp', 'h_lit_value', 'real dispatchValue(NUMBER) of gen.cpp on a symbolic decimal literal', ['gen.cpp:dispatchValue', 'gen.cpp:strToInt']),
                            ('literals_macro.cpp', 'h_lit_insertion', 'real strToInt and strToIntSilent of macro.cpp on the same symbolic insertion index: the index used when applying a macro is in range whenever extraction accepted it', ['macro.cpp:strToInt', 'macro.cpp:strToIntSilent']),
                            ('literals_macro.cpp', 'h_lit_macro', 'real strToInt of macro.cpp on a symbolic decimal literal', ['macro.cpp:strToInt'])]:
-        for n in ([3, 9, -10, 11] if tier == 'quick' else [-10] + list(range(1, 13))):
+        for n in ([3, 9, -10, 11, 20] if tier == 'quick' else [-10] + list(range(1, 13)) + [20]):      # 20 digits: above LONG_MAX, the conversion function saturates / reports a range error
           bd = n < 0; n = abs(n)
-          J.append(fw.Job('lit.%s.len%d%s' % (e, n, 'b' if bd else ''), os.path.join(H, h), e, tus=['VM/src/instr.cpp'] if 'gen' in h else [], defines=d + ['LIT_LEN=%d' % n] + (['LIT_BOUNDARY=1'] if bd else []), caps='caps_lit.hpp', unwind=4, tags=[prop, 'C02'] if e == 'h_lit_insertion' else [prop], stubs=st, native=False, timeout=600, ub_pat=r'^(_Z\d|_ZL(?!11sym_literal|16at_least_int_max)|_ZN8GenState|_ZN16FunctionGenState|h_lit_)\S*\.overflow',
-                        what=what, bounds='decimal literals without leading zero, one query per length (quick: 3, 9, 11 digits and the ten-digit boundary family 21474836dd; thorough: every length 1..12 in full) (covers the 2^31 boundary with margin; oracle: digit-wise comparison with 2147483647; strtol modelled per the C standard)', functions=fn, extra=['--object-bits', '12'], build_key=(h, n, bd)))
+          dd = d if n <= 12 else ['MINISTL_STR_CAP=24', 'MINISTL_VEC_CAP=6', 'MINISTL_MAP_CAP=2', 'LIT_MAXLEN=20']
+          J.append(fw.Job('lit.%s.len%d%s' % (e, n, 'b' if bd else ''), os.path.join(H, h), e, tus=['VM/src/instr.cpp'] if 'gen' in h else [], defines=dd + ['LIT_LEN=%d' % n] + (['LIT_BOUNDARY=1'] if bd else []), caps='caps_lit.hpp', unwind=4, tags=[prop, 'C02'] if e == 'h_lit_insertion' else [prop], stubs=st, native=False, timeout=600, ub_pat=r'^(_Z\d|_ZL(?!11sym_literal|16at_least_int_max)|_ZN8GenState|_ZN16FunctionGenState|h_lit_)\S*\.overflow',
+                        what=what, bounds='decimal literals without leading zero, one query per length (quick: 3, 9, 11, 20 digits and the ten-digit boundary family 21474836dd; thorough: every length 1..12 in full and 20) (covers the 2^31 boundary with margin; oracle: digit-wise comparison with 2147483647; strtol modelled per the C standard)', functions=fn, extra=['--object-bits', '12'], build_key=(h, n, bd)))
     return J
